@@ -30,6 +30,10 @@ Cases ==
     \* sparse builder: more set bits than the universe is refused (only small universes are constructed)
     \cup {[c |-> [op |-> "SparseBuilder::new", n |-> J(n), m |-> J(m)], exp |-> IF ELe(m, n) THEN "ok" ELSE "err"] :
         n \in {x \in Ext : ~IsBig(x)}, m \in Ext}
+    \* ... and universes at the top of the range with at least one and few set bits (with none, the builder keeps 1-bit low parts and
+    \* needs universe / 2 bits of memory): accepted; the harness then sets the last m positions and converts the builder
+    \cup {[c |-> [op |-> "SparseBuilder::new", n |-> J(n), m |-> J(m)], exp |-> "ok"] :
+        n \in {x \in Ext : IsBig(x)}, m \in {x \in Ext : ~IsBig(x) /\ x[2] >= 1}}
     \* run-length builder: after reaching length len0, try_set(start, len) is refused iff start < len0 or start + len overflows
     \cup {[c |-> [op |-> "RLBuilder::try_set", len0 |-> J(l0), start |-> J(s), len |-> J(n)],
            exp |-> IF ELt(s, l0) \/ EOverflow(s, n) THEN "err" ELSE "ok"] :
